@@ -475,7 +475,7 @@ pub fn run(eng: &mut Engine) {
     eng.assume("packets are decoded by the harness' own RFC 5651/5775/6726/5445/5510/6330 decoder (rfc/*), never by flute");
     eng.assume("Raptor (FEC 1) EXT_FTI is read with flute's own 40-bit layout: the RFC 5053 text is not available offline (DESIGN.md C06 limits)");
     let tier = eng.tier;
-    let cases = tier.pick(6000, 250_000);
+    let cases = tier.pick(80_000, 2_000_000);
     let known_keys: Vec<String> = eng.known.iter().filter(|k| k.status == "open").map(|k| k.key.clone()).collect();
     let known = move |k: &str| known_keys.iter().any(|x| x == k);
     eng.generated(
